@@ -38,6 +38,15 @@ KERNELS = [
          rules=[(r"const float relaxation_parameter\s*=\s*this->relaxation_parameter / \(1 \+ this->relaxation_gamma \* \((.*)\)\);",
                  r"const int relaxation_iteration = (\1);", 1),
                 (r"this->subiteration_num\b", "subiteration_num", 1), (r"this->num_subsets\b", "num_subsets", 1)]),
+    dict(name="K_ossps_clamp_tail", file=OSSPS, cxx_name="OSSPSReconstruction<TargetT>::update_estimate: block after the additive update ('now threshold image')",
+         func=r"OSSPSReconstruction<TargetT>::update_estimate\(TargetT& current_image_estimate\)",
+         span=(r"\{\s*const float current_min\b", r"\n  \}"),
+         c_header="void K_ossps_clamp_tail(float* begin, float* end, const double upper_bound)", loops=0,
+         rules=[(r"info\(boost::format\([^;]*;", "", (0, 2)),
+                (r"\*std::min_element\(current_image_estimate\.begin_all\(\), current_image_estimate\.end_all\(\)\)", "K_min_elem(begin, end)", (0, 2)),
+                (r"\*std::max_element\(current_image_estimate\.begin_all\(\), current_image_estimate\.end_all\(\)\)", "K_max_elem(begin, end)", (0, 2)),
+                (r"current_image_estimate\.begin_all\(\)", "begin", (1, 4)), (r"current_image_estimate\.end_all\(\)", "end", (1, 4)),
+                (r"static_cast<float>\(", "CAST(float, ", (1, 2)), (r"(?<![\w.>])threshold_(upper_lower|upper|lower)\(", r"K_threshold_\1(", (1, 3))]),
 ]
 
 STATIC_FACTS = []
@@ -54,16 +63,14 @@ def extra_gen(repo, gen_dir, metas):
     if not m:
         raise extract.ExtractionError("update_estimate: additive update statement not found")
     tail = body[m.end():]
-    ok = (re.search(r"const float new_min = 0\.F;", tail) and re.search(r"const float new_max = static_cast<float>\(upper_bound\);", tail)
-          and re.search(r"threshold_upper_lower\(current_image_estimate\.begin_all\(\), current_image_estimate\.end_all\(\), new_min, new_max\);", tail))
-    rest = tail
-    for pat in (r"const float current_(?:min|max) = \*std::(?:min|max)_element\(current_image_estimate\.begin_all\(\), current_image_estimate\.end_all\(\)\);",
-                r"threshold_upper_lower\(current_image_estimate\.begin_all\(\), current_image_estimate\.end_all\(\), new_min, new_max\);"):
-        rest = re.sub(pat, "", rest)
-    if not ok or "current_image_estimate" in rest:
-        raise extract.ExtractionError("update_estimate: the tail after the additive update is no longer 'threshold_upper_lower(all, 0.F, float(upper_bound))' only")
-    STATIC_FACTS.append("OSSPSReconstruction::update_estimate: after 'current_image_estimate += *numerator_ptr' the image is only passed to "
-                        "threshold_upper_lower(begin_all(), end_all(), 0.F, static_cast<float>(upper_bound)) and to const min/max_element (syntactic scan)")
+    blk = re.search(r"\{\s*const float current_min\b.*?\n  \}", tail, flags=re.S)
+    if not blk:
+        raise extract.ExtractionError("update_estimate: block 'now threshold image' not found after the additive update")
+    rest = tail[:blk.start()] + tail[blk.end():]
+    if "current_image_estimate" in rest:
+        raise extract.ExtractionError("update_estimate: the image is used after the additive update outside the thresholding block (kernel K_ossps_clamp_tail)")
+    STATIC_FACTS.append("OSSPSReconstruction::update_estimate: after 'current_image_estimate += *numerator_ptr' the image is only used inside the block "
+                        "that kernel K_ossps_clamp_tail extracts (syntactic scan)")
     n = len(re.findall(r"threshold_min_to_small_positive_value\(work_image_ptr->begin_all\(\), work_image_ptr->end_all\(\), 10\.E-6F\);", body))
     if n != 1:
         raise extract.ExtractionError("update_estimate: denominator is no longer thresholded by threshold_min_to_small_positive_value(..., 10.E-6F) exactly once")
@@ -86,6 +93,7 @@ def jobs(tier, gen_dir):
 
     for k in ("K_threshold_upper_lower", "K_threshold_upper", "K_threshold_lower"):
         enforce(k)
+    enforce("K_ossps_clamp_tail", repl=["K_threshold_upper_lower", "K_threshold_upper", "K_threshold_lower", "K_min_elem", "K_max_elem"], lc=False)
     # strictly positive denominator: real bodies of threshold_min_to_small_positive_value, min_positive_element, threshold_lower and the
     # std::fill model, sequences of at most 6 elements, loops unwound (BOUNDED stand-in: "no NaN anywhere" needs a quantifier)
     out.append(Job("c08/bounded_positive_denominator", HARNESS, "h_bounded_positive_denominator", kind="lemma",
